@@ -31,7 +31,7 @@ enum Op {
     TryFromA,
     /// `ScannerBuilder::new().add_patterns(..).build()`: the simple builder (shares the cache)
     SimpleBuild,
-    /// deeply nested patterns (40 groups), outside the cache lock: `Scanner::try_from` and
+    /// deeply nested patterns (130 groups), outside the cache lock: `Scanner::try_from` and
     /// `build_uncached` of two different configurations
     TryFromDeep,
     UncachedDeep2,
@@ -81,7 +81,7 @@ fn peek_l(sc: &Scanner) -> Vec<(usize, usize, usize)> {
 }
 
 fn modes_deep(inner: &str, tt: usize) -> Vec<ScannerMode> {
-    let p = format!("{}{inner}{}", "(".repeat(40), ")".repeat(40));
+    let p = format!("{}{inner}{}", "(".repeat(130), ")".repeat(130));
     vec![ScannerMode::new("DEEP", vec![Pattern::new(p, tt), Pattern::new("[ab1]".into(), tt + 1)], vec![])]
 }
 
@@ -316,7 +316,12 @@ fn explore(scripts: &[Vec<Op>], bound: Option<usize>, max_branches: usize, budge
     if let Err(e) = r {
         let msg = if let Some(s) = e.downcast_ref::<&str>() { s.to_string() } else if let Some(s) = e.downcast_ref::<String>() { s.clone() } else { "panic".into() };
         if msg.contains("exceeded maximum number of branches") || msg.contains("Model exeeded maximum") {
-            capped = true;
+            // loom's limit is per execution: ONE schedule made more than `max_branches`
+            // synchronisation steps. No operation of these harnesses needs that many; a thread is
+            // spinning (a wait loop that never ends under this schedule).
+            if violation.is_none() {
+                violation = Some(format!("one schedule did not end within {max_branches} synchronisation steps: a thread spins without making progress (livelock); loom: {msg}"));
+            }
         } else if only_library_threads_blocked(&msg) {
             library_thread_left = true;
         } else if violation.is_none() {
